@@ -11,9 +11,11 @@ EXTENDS Integers, Sequences, FiniteSets
 
 Fresh == [mem |-> 0, disk |-> 0, over |-> FALSE, spilled |-> FALSE]
 
+\* A write that would take the total past maxBytes is refused as a whole and marks the buffer (the mark stays); the buffer
+\* goes on accepting later writes that fit - the response is discarded at the end anyway (what the code does; the
+\* response middleware keeps feeding the buffer after an overflow, because an error would make ReverseProxy panic)
 Write(st, n, maxMem, maxBytes) ==
-  IF st.over THEN st
-  ELSE IF maxBytes > 0 /\ st.mem + st.disk + n > maxBytes THEN [st EXCEPT !.over = TRUE]
+  IF maxBytes > 0 /\ st.mem + st.disk + n > maxBytes THEN [st EXCEPT !.over = TRUE]
   ELSE IF ~st.spilled /\ st.mem + n <= maxMem THEN [st EXCEPT !.mem = @ + n]
   ELSE LET toMem == IF st.spilled THEN 0 ELSE maxMem - st.mem
        IN [st EXCEPT !.mem = @ + toMem, !.disk = @ + (n - toMem), !.spilled = TRUE]
